@@ -56,12 +56,14 @@ SPEC = {
     'sibling keys are homogeneous (all int or all str), as sorted() requires',
     'Variable hooks (on_get_value / on_set_value, via metadata kwarg or a Variable subclass) are opaque metadata entries for the model: flatten / unflatten / update_from_state copy raw payloads and never run a hook; the harness observes raw_value, .value (after hooks) and metadata (hooks by qualified name). on_create_value runs only in Variable.__init__ and is not generated',
     'update with a key the node does not have, or a nested State written into an array/Variable slot, is outside the model (never generated)',
+    'excluded point: nnx.update(g, nnx.state(g)) raises ValueError("Cannot set key … on immutable node") when state lists an array that sits inside a list/tuple/dict (pytree containers are immutable values for flax, same interpretation as F8); the model agrees (updImmutable)',
     'iter_graph is compared on graph nodes, Variables, arrays and statics; Python also de-duplicates None/() singletons and containers by id()',
   ],
   'model_partial': [
-    'state_once_sorted: proved = strictly sorted, every Variable exactly once, at a path that resolves to it, every reachable Variable listed; NOT proved in Lean: that the listed path is the *first* path in DFS order (operational notion; the lexicographically least path does not exist in cyclic graphs). Tied by correspondence with the independent reference DFS `ref_state`.',
-    'pop_exact: proved for filters that do not look at the path (types, tags, Any/All/Not): returned exactly once, in the first-match state, under a path that reaches the Variable; all selected reachable Variables returned; none reachable afterwards; nothing else removed. NOT proved in Lean: that the path is the *first* DFS path (same operational notion as for state), and path-dependent filters (for which "selected" depends on the route). Both are covered by model correspondence.',
-    'update_identity / update_frame / update_sets_path: proved = no allocation, kinds/classes/keys/references unchanged; objects not addressed by the state untouched; a single-leaf state rewrites exactly the addressed Variable. NOT proved in Lean: the combined value-level statement for states with several leaves that alias the same Variable (last write wins); checked by `update_oracle` and model correspondence.',
+    'first path: CLOSED (flatten_first_path, state_first_path, split_first_path, pop_first_path) — the DFS order of flatten is made explicit (`trace`: encounters and registrations alongside ref_index) and every Variable is listed / returned under the path of its first encounter.',
+    'update values: CLOSED (update_values) — for arbitrary states every Variable ends as the fold, in state order, of exactly the leaves whose path reaches it (last write wins); plus update_identity / update_frame / update_sets_path.',
+    'pop with path-dependent filters: pop_any_filters proves what the code does for ARBITRARY filters (entry returned at the path of the encounter where a filter first matched, state = first filter matching that (path, Variable) pair, no Variable twice, only attributes removed, every removed attribute is a reference to a returned Variable); pop_exact (exactness + unreachability) needs path-independent filters, and the two closed theorems pop_path_filter_keeps_earlier_alias / pop_path_filter_removes_later_alias show why. NOT proved: for path-dependent filters, that the popping encounter is the FIRST matching encounter in DFS order and that every later reference is removed (model correspondence covers both).',
+    'array attributes of graph nodes: update_values speaks about Variables; the in-place rewrite of an array attribute by a raw leaf is covered by update_identity (shape) and update_frame only.',
   ],
 }
 
